@@ -67,7 +67,7 @@ nodeRest == <<temp, evlog, recvKnown>>
 allvars == <<vars, gvars>>
 
 (* ============================== part (a) ================================ *)
-Outcomes == {"ok", "vf", "xf"}       \* ok / verification fails / execution fails
+Outcomes == {"ok", "vf", "vp", "xf"} \* ok / verification fails / verification answers "pending" (nonce gap) / execution fails
 TxKinds == [r : 1..SelRanks, z : 1..2, o : Outcomes]
 Senders == 1..3
 
